@@ -15,7 +15,7 @@ import sys
 import time
 
 VERIF = '/verif'
-REPO = '/repo'
+REPO = os.environ.get('VERIF_REPO', '/repo')   # overridable for evaluating seeded changes in a scratch worktree
 SPEC = os.path.join(VERIF, 'spec')
 HARNESS = os.path.join(VERIF, 'harness')
 GO = 'go1.26.8'
@@ -41,6 +41,7 @@ class Run:
         self.t0 = time.time()
         base = '/dev/shm' if os.path.isdir('/dev/shm') else '/var/tmp'
         self.scratch = os.path.join(base, 'verif.%s.%d' % (pid, os.getpid()))
+        self.repo = REPO
         shutil.rmtree(self.scratch, ignore_errors=True)
         os.makedirs(self.scratch)
         self.cov = dict(states=0, transitions=0, traces_validated_against_impl=0, samples=[],
@@ -70,6 +71,10 @@ class Run:
         if not os.path.isdir(hdir):
             shutil.copytree(HARNESS, hdir, ignore=shutil.ignore_patterns('go.sum', '*.test'))
             shutil.copy(os.path.join(REPO, 'go.sum'), os.path.join(hdir, 'go.sum'))
+            if REPO != '/repo':
+                gm = os.path.join(hdir, 'go.mod')
+                txt = open(gm).read().replace('=> /repo', '=> ' + REPO)
+                open(gm, 'w').write(txt)
         out = os.path.join(self.scratch, 'harness.race.test' if race else 'harness.test')
         env = dict(os.environ, **GOENV)
         cmd = [GO, 'test', '-tags', 'verif', '-c', '-o', out]
@@ -256,7 +261,7 @@ class Run:
                     self.cov['known_findings'].append(msg)
                     log(msg)
                 return
-        rdir = os.path.join(VERIF, 'replays', self.pid)
+        rdir = os.path.join(os.environ.get('VERIF_REPLAYS', os.path.join(VERIF, 'replays')), self.pid)
         os.makedirs(rdir, exist_ok=True)
         rp = os.path.join(rdir, '%s-seed%s-%d.ndjson' % (self.tier, self.seed, len(self.violations)))
         with open(rp, 'w') as f:
@@ -298,8 +303,9 @@ class Run:
         ev = dict(property_id=self.pid, tier=self.tier, seed=self.seed, level=level, coverage=cov,
                   assumptions=(assumptions or []) + self.assumptions,
                   wall_s=round(time.time() - self.t0, 1), violations=len(self.violations))
-        os.makedirs(os.path.join(VERIF, 'evidence'), exist_ok=True)
-        with open(os.path.join(VERIF, 'evidence', self.pid + '.json'), 'w') as f:
+        evdir = os.environ.get('VERIF_EVIDENCE_DIR', os.path.join(VERIF, 'evidence'))
+        os.makedirs(evdir, exist_ok=True)
+        with open(os.path.join(evdir, self.pid + '.json'), 'w') as f:
             json.dump(ev, f, indent=1, default=str)
         for what, rp in self.violations:
             print('VIOLATION property=%s replay=%s   (%s)' % (self.pid, rp, what), flush=True)
